@@ -137,9 +137,15 @@ def run(ctx: Context) -> None:
         return
     inv_factor = None
     for n in ast.walk(inv.node):
-        if isinstance(n, ast.Call) and (dotted(n.func) or "").endswith("exp") and "phis" in norm(n):
+        if isinstance(n, ast.Call) and (dotted(n.func) or "").endswith("exp") and n.args:
+            # exp(1j * <the local that collects the phaseshifter angles>): the local filled with `<phaseshifter>.phi`
+            phase_locals = {a.targets[0].id for a in ast.walk(inv.node) if isinstance(a, ast.Assign) and len(a.targets) == 1
+                            and isinstance(a.targets[0], ast.Name) and any(isinstance(x, ast.Attribute) and x.attr == "phi" for x in ast.walk(a.value))}
+            used = [x.id for x in ast.walk(n.args[0]) if isinstance(x, ast.Name) and x.id in phase_locals]
+            if not used:
+                continue
             try:
-                inv_factor = SymEval(inv, {}, env={"np": "<np>", "phis": ph}).ev(n)
+                inv_factor = SymEval(inv, {}, env={"np": "<np>", used[0]: ph}).ev(n)
             except Untranslatable as e:
                 ctx.error(str(e))
     if inv_factor is None:
@@ -156,13 +162,16 @@ def run(ctx: Context) -> None:
     # left multiplication: interferometer = X @ interferometer
     left_mult = []
     for n in ast.walk(inv.node):
-        if isinstance(n, ast.Assign) and isinstance(n.value, ast.BinOp) and isinstance(n.value.op, ast.MatMult) and norm(n.targets[0]) == "interferometer":
-            left_mult.append(norm(n.value.right) == "interferometer")
+        # X = M @ X (left multiplication of the accumulated matrix, whatever it is called)
+        if isinstance(n, ast.Assign) and isinstance(n.value, ast.BinOp) and isinstance(n.value.op, ast.MatMult) and isinstance(n.targets[0], ast.Name) \
+                and (norm(n.value.right) == n.targets[0].id or norm(n.value.left) == n.targets[0].id):
+            left_mult.append(norm(n.value.right) == n.targets[0].id)
     # the phases must be applied after the beamsplitter loop
     phase_after = False
     bs_inv_loop = next((l for l in inv_loops if norm(l.iter).endswith("beamsplitters")), None)
     for n in inv.node.body:
-        if isinstance(n, ast.Assign) and "np.diag" in norm(n.value) and bs_inv_loop is not None and n.lineno > bs_inv_loop.lineno:
+        if isinstance(n, ast.Assign) and any(isinstance(c_, ast.Call) and (dotted(c_.func) or "").split(".")[-1] == "diag" for c_ in ast.walk(n.value)) \
+                and bs_inv_loop is not None and n.lineno > bs_inv_loop.lineno:
             phase_after = True
     ok_side = bool(left_mult) and all(left_mult) and phase_after
     rev = any("reversed" in norm(l.iter) for l in loops + inv_loops)
@@ -336,10 +345,12 @@ def _givens_sites(m, ga_name: str):
                 sign, v = -1, v.operand
             if not (isinstance(v, ast.Subscript) and isinstance(v.slice, ast.Tuple) and len(v.slice.elts) == 2):
                 raise AnalysisError(f"C15c: `{norm(v)}` in {fn.name} is not a matrix element (undecided)")
-            row, col = (norm(x) for x in v.slice.elts)
-            for axis, txt in (("row", row), ("col", col)):
-                if txt in ("modes[0]", "modes[1]"):
-                    return sign, int(txt[-2]), axis
+            # `<pair>[0]` / `<pair>[1]` where <pair> is the local bound to the 2-tuple of addressed modes (whatever it is called)
+            pair_names = {k for k, b_ in binds.items() if isinstance(b_, ast.Tuple) and len(b_.elts) == 2}
+            for axis, x in (("row", v.slice.elts[0]), ("col", v.slice.elts[1])):
+                if isinstance(x, ast.Subscript) and isinstance(x.value, ast.Name) and x.value.id in pair_names \
+                        and isinstance(x.slice, ast.Constant) and x.slice.value in (0, 1):
+                    return sign, int(x.slice.value), axis
             raise AnalysisError(f"C15c: `{norm(v)}` in {fn.name} is not indexed by modes[0]/modes[1] (undecided)")
 
         s_e, p_e, ax_e = element(call.args[0])
